@@ -30,7 +30,7 @@ var c15Algs = []string{"ES256", "RS256", "PS256", "ES384", "none", "HS256"}
 var c15Kids = []string{"registered", "absent", "unknown"}
 var c15Keys = []string{"registered", "other-party", "unregistered"}
 var c15Claims = []string{"valid", "iss-absent", "iss-other", "iss-number", "sub-absent", "sub-other", "sub-number", "aud-list", "aud-list-without", "aud-near-miss", "aud-other", "aud-absent", "aud-number",
-	"exp-float", "exp-float-frac", "exp-string", "exp-absent", "exp-past", "exp-past-frac", "exp-too-far", "exp-at-max", "nbf-past", "nbf-future", "iat-absent", "iat-future", "jti-absent", "jti-empty", "jti-number"}
+	"exp-float", "exp-float-frac", "exp-string", "exp-absent", "exp-past", "exp-past-frac", "exp-zero", "exp-negative", "exp-zero-float", "exp-too-far", "exp-at-max", "nbf-past", "nbf-future", "iat-absent", "iat-future", "jti-absent", "jti-empty", "jti-number"}
 
 const c15Client = "J"
 
@@ -126,6 +126,15 @@ func c15Assertion(w *World, c c15Case, jti string) (string, bool, string) {
 	case "exp-past":
 		claims["exp"] = now.Add(-30 * time.Second).Unix()
 		bad("expired")
+	case "exp-zero":
+		claims["exp"] = 0
+		bad("expired (exp = 0, 1970-01-01)")
+	case "exp-negative":
+		claims["exp"] = -1
+		bad("expired (negative exp)")
+	case "exp-zero-float":
+		claims["exp"] = 0.0
+		bad("expired (exp = 0.0)")
 	case "exp-past-frac":
 		claims["exp"] = float64(now.Add(-30*time.Second).Unix()) + 0.5
 		bad("expired (fractional exp)")
@@ -264,6 +273,13 @@ func c15Run(c c15Case, res *WRes) {
 		other, _, _ := c15Assertion(w, c15Case{Use: c.Use, Alg: "ES256", Kid: "registered", Key: "registered", Claim: "valid"}, "jti-other")
 		c15Present(w, c, other)
 		w.Advance(20 * time.Second)
+	case "after-a-longer-lived-assertion":
+		// another valid assertion (own jti) that expires much later is recorded in between
+		other, _, _ := c15Assertion(w, c15Case{Use: c.Use, Alg: "ES256", Kid: "registered", Key: "registered", Claim: "exp-at-max"}, "jti-longer-lived")
+		if oo := c15Present(w, c, other); !issued(oo) {
+			res.note("sanity:longer-lived-assertion-refused:" + oo.Class())
+		}
+		w.Advance(5 * time.Second)
 	case "after-expiry":
 		w.Advance(6 * time.Minute)
 	}
@@ -337,7 +353,7 @@ func init() {
 					scopes := []string{""}
 					replays := []string{"immediately"}
 					if cl == "valid" {
-						replays = []string{"immediately", "after-other-requests", "after-expiry"}
+						replays = []string{"immediately", "after-other-requests", "after-a-longer-lived-assertion", "after-expiry"}
 						if j.Use == "bearer" {
 							scopes = []string{"", "photos", "a photos", "-", "a.b"}
 						}
@@ -408,7 +424,7 @@ func init() {
 		}
 		defer overlapPart(r, []string{"bearer-jti", "client-assertion-jti"})
 		r.Bounds = map[string]any{"jwks_uri": "client assertions resolved through jwks_uri (real fetcher + cache, in-memory transport): 6 look-alike URI pairs x 6 warm-up histories x 4 cross-client presentations", "uses": []string{"private_key_jwt client assertion", "JWT-bearer grant"}, "header_alg": c15Algs, "kid": c15Kids, "signing_key": c15Keys, "claim_deviations": c15Claims,
-			"optional_claim_configs": "jti optional x iat optional (bearer)", "scopes_vs_key_scopes": []string{"a", "photos", "a photos", "none", "a.b"}, "replay_positions": []string{"immediately", "after other requests + 20 s", "after expiry"},
+			"optional_claim_configs": "jti optional x iat optional (bearer)", "scopes_vs_key_scopes": []string{"a", "photos", "a photos", "none", "a.b"}, "replay_positions": []string{"immediately", "after other requests + 20 s", "after a longer-lived assertion was recorded", "after expiry"},
 			"schedules": fmt.Sprintf("2 simultaneous presentations: all interleavings at storage-call granularity (unbounded) and lock granularity (preemption bound 2); 3 simultaneous: storage-call granularity, preemption bound %d", bound3)}
 		r.Rule = "grid: header alg x kid x key x every single claim deviation (x scopes x replay position) on a fresh provider, one-sided against the statement; schedules: stateless depth-first exploration of the real token endpoint under a cooperative scheduler, successes per jti counted on every complete execution; states = executions, transitions = scheduling points executed"
 		r.Assumptions = []string{"unknown kid and iat in the future are don't-care", "scheduling points: every storage call and every random read (storage-call granularity), plus every lock acquisition (lock granularity)"}
